@@ -592,9 +592,13 @@ Inductive ttype := RESOLVED | DEFINED.
 (* Candidate repairs (fixes/C07-*.diff); the code as it is now is [no_fixes].
    fx_pop     : Units::performTestWithHistory pops the epoch it pushed (finding C07-units-history-not-popped)
    fx_nullref : referencedUnits skips a reference that is not a units of the model instead of recursing on a
-                null pointer (finding C07-null-deref-dangling-units-ref) *)
-Record fixes := { fx_pop : bool; fx_nullref : bool }.
-Definition no_fixes : fixes := {| fx_pop := false; fx_nullref := false |}.
+                null pointer (finding C07-null-deref-dangling-units-ref)
+   fx_placeholder_children : Component::performTestWithHistory also tests the components encapsulated by an import
+                placeholder itself (/repo commit 0a59695; finding C07-children-of-imported-component-not-tested) *)
+Record fixes := { fx_pop : bool; fx_nullref : bool; fx_placeholder_children : bool }.
+Definition no_fixes : fixes := {| fx_pop := false; fx_nullref := false; fx_placeholder_children := false |}.
+(* the code at /repo HEAD: 94d567f (history pop), 3564768 (referencedUnits null test), 0a59695 (placeholder's children) *)
+Definition head_fixes : fixes := {| fx_pop := true; fx_nullref := true; fx_placeholder_children := true |}.
 
 (* "for (x : l) if (step(x)) return true; return false;" *)
 Fixpoint none_found {A X : Type} (step : X -> A -> res (bool * X)) (l : list A) (x : X) : res (bool * X) :=
@@ -722,17 +726,20 @@ Definition unit_step {A : Type} (f : A -> res bool) : unit -> A -> res (bool * u
 
 (* the local part of ComponentImpl::performTestWithHistory: the units used by the component and its
    descendants, then the children; [imp c] is what happens at an imported component *)
-Fixpoint comp_walk (imp : comp -> res bool) (units_ok : comp -> res bool) (c : comp) {struct c} : res bool :=
+Fixpoint comp_walk (pk : bool) (imp : comp -> res bool) (units_ok : comp -> res bool) (c : comp) {struct c} : res bool :=
   match c with
-  | Comp _ (Some _) _ _ => imp c
-  | Comp _ None _ kids =>
-    match units_ok c with
+  | Comp _ i _ kids =>
+    (* an import placeholder: the imported component first, then (pk: since 0a59695) the placeholder's own children;
+       a local component: the units it and its descendants use, then its children *)
+    match (match i with Some _ => imp c | None => units_ok c end) with
     | Ok true =>
-      (fix wl (l : list comp) : res bool :=
-         match l with
-         | [] => Ok true
-         | k :: r => match comp_walk imp units_ok k with Ok true => wl r | other => other end
-         end) kids
+      if (match i with Some _ => pk | None => true end)
+      then (fix wl (l : list comp) : res bool :=
+              match l with
+              | [] => Ok true
+              | k :: r => match comp_walk pk imp units_ok k with Ok true => wl r | other => other end
+              end) kids
+      else Ok true
     | other => other
     end
   end.
@@ -743,7 +750,7 @@ Fixpoint comp_test (fx : fixes) (fuel : nat) (ty : ttype) (st : state) (m0 : mod
   match fuel with
   | 0 => OutOfFuel
   | S f =>
-    comp_walk
+    comp_walk (fx_placeholder_children fx)
       (fun c => match c with
                 | Comp _ (Some (sid, url, ref)) _ _ =>
                   match linked_model st o sid url with
